@@ -4,6 +4,7 @@ Python 3.12) while a library call runs and aborts it with BudgetExceeded when
 a budget is passed.  Independent of machine speed.
 """
 import sys
+import tracemalloc
 
 
 class BudgetExceeded(BaseException):
@@ -12,7 +13,19 @@ class BudgetExceeded(BaseException):
 
 _mon = sys.monitoring
 _TOOL = _mon.PROFILER_ID
-_state = {'n': 0, 'budget': 0, 'on': False}
+_state = {'n': 0, 'budget': 0, 'on': False, 'peak': 0}
+
+
+def trace_allocations():
+    """From now on metered() also records the peak number of bytes the call
+    had allocated at any one time (Python allocator, exact and repeatable);
+    read it with last_peak()."""
+    if not tracemalloc.is_tracing():
+        tracemalloc.start(1)
+
+
+def last_peak():
+    return _state['peak']
 
 
 def _on_line(code, line):
@@ -37,6 +50,10 @@ def metered(func, budget):
     _ensure()
     _state['n'] = 0
     _state['budget'] = budget
+    tracing = tracemalloc.is_tracing()
+    if tracing:
+        tracemalloc.reset_peak()
+        base = tracemalloc.get_traced_memory()[0]
     _mon.set_events(_TOOL, _mon.events.LINE)
     try:
         v = func()
@@ -49,4 +66,6 @@ def metered(func, budget):
         st = 'exc'
     finally:
         _mon.set_events(_TOOL, 0)
+        _state['peak'] = tracemalloc.get_traced_memory()[1] - base \
+            if tracing else 0
     return st, v, _state['n']
